@@ -344,6 +344,11 @@ let run (op : string) (a : string list) : string list =
   (* C15 *)
   | "fault", [res_ok; after; same] ->
       [verdict (check_fault (bool_of_string01 res_ok) (nlist_of_string after) (bool_of_string01 same))]
+  (* C19 *)
+  | "pure", [alone; obs; snaps] ->
+      let pairs x = List.map (fun e -> match split ':' e with
+        | [o; r] -> (n_of_string o, bytes_of_hex r) | _ -> failwith "bad pair") (split ',' x) in
+      [verdict (check_pure (pairs alone) (pairs obs) (List.map bytes_of_hex (split ',' snaps)))]
   | _ -> ["skip"; "unknown op " ^ op]
 
 let () =
